@@ -582,7 +582,7 @@ def run_check(tier, seed):
             return V.finish()
         hexe = cc(tree, [os.path.join(VERIF, 'harness/c07_meta.c')], os.path.join(wd, 'c07h'),
                   extra=['-I' + tree + '/src/drivers/ncmpio', '-I' + tree + '/src/drivers/include', '-I' + tree + '/src/include', '-DHAVE_CONFIG_H'])
-        nep, nops = (24, 80) if tier == 'quick' else (160, 200)
+        nep, nops = (24, 80) if tier == 'quick' else (400, 250)
         scripts = []
         cdir = os.path.join(VERIF, 'corpus', PROP)
         if os.path.isdir(cdir):
@@ -591,6 +591,11 @@ def run_check(tier, seed):
                     p = subprocess.run([drv], input=open(os.path.join(cdir, fn)).read(), stdout=subprocess.PIPE, text=True)
                     L = [l for l in open(os.path.join(cdir, fn)).read().split('\n') if l]
                     scripts.append(('corpus/' + fn, L, p.stdout.split('\n')[:len(L)], ['corpus'] * len(L)))
+        # directed script: the one place where the code does not follow the reference model (known defect):
+        # copy_att of an NC_UINT64 attribute from a CDF-5 file into a CDF-1 file
+        L = ['CREATE 0 5 8 8 8 8', 'CREATE 1 1 8 8 8 8', 'PUTATT 0 -1 %s L 11 1 5' % tok(b'big'), 'COPYATT 0 -1 %s 1 -1' % tok(b'big')]
+        p = subprocess.run([drv], input='\n'.join(L) + '\n', stdout=subprocess.PIPE, text=True)
+        scripts.append(('cross-format-copy', L, p.stdout.split('\n')[:len(L)], ['mode', 'mode', 'mut', 'mut']))
         dist = {}
         t1 = Timer()
         for ep in range(nep):
@@ -685,6 +690,8 @@ def run_check(tier, seed):
 
 def difference_class(impl, spec):
     a, b = impl.split(' ')[0], spec.split(' ')[0]
+    if (a, b) == ('0', '-232'):
+        return 'extended-type-into-classic-file'
     return 'err%s-vs-%s' % (a, b) if a != b else 'content'
 
 
